@@ -80,35 +80,53 @@ Proof.
   intros H. unfold wstep. destruct (step lm lu s _ (snd co)) as [c' o]. cbn. now apply lookup_insert_neq.
 Qed.
 
-(* C15: a batch write under the emulated internal-server failure applies nothing and returns every request as unprocessed *)
+(* C15: a batch write under the emulated internal-server failure applies nothing and returns every request as unprocessed,
+   whatever the requests, the tables and the size of the batch are (nothing of the batch is looked at) *)
 Lemma batch_one_under_failure c tn r :
-  c_failure c = Some FInternal -> v1_name_ok s tn = true -> wreq_ok r = true ->
-  batch_write_one lm s c tn r = (c, Some None).
+  c_failure c = Some FInternal -> batch_write_one lm s c tn r = (c, Some None).
 Proof.
-  intros Hf Hn Hr. unfold batch_write_one. destruct r; try discriminate; cbn.
-  - unfold put_item, preamble. rewrite Hn, Hf. reflexivity.
-  - unfold delete_item, preamble. rewrite Hn, Hf. reflexivity.
+  intros Hf. unfold batch_write_one. destruct r; cbn.
+  - unfold put_item, preamble. rewrite Hf. reflexivity.
+  - unfold delete_item, preamble. rewrite Hf. reflexivity.
+  - rewrite Hf. reflexivity.
+  - unfold put_item, preamble. rewrite Hf. reflexivity.
 Qed.
 
 Lemma batch_reqs_under_failure rs : forall c tn un,
-  c_failure c = Some FInternal -> v1_name_ok s tn = true -> forallb wreq_ok rs = true ->
-  batch_write_reqs lm s c tn rs un = (c, un ++ rs, None).
+  c_failure c = Some FInternal -> batch_write_reqs lm s c tn rs un = (c, un ++ rs, None).
 Proof.
-  induction rs as [|r rs IH]; intros c tn un Hf Hn Hr; cbn [batch_write_reqs].
+  induction rs as [|r rs IH]; intros c tn un Hf; cbn [batch_write_reqs].
   - now rewrite app_nil_r.
-  - cbn in Hr. apply andb_true_iff in Hr as [H1 H2].
-    rewrite (batch_one_under_failure c tn r Hf Hn H1). rewrite IH by auto. now rewrite <- app_assoc.
+  - rewrite (batch_one_under_failure c tn r Hf). rewrite IH by auto. now rewrite <- app_assoc.
+Qed.
+
+(* the unprocessed map of a batch of which nothing is applied: every table entry that has requests, with all of them *)
+Fixpoint all_unprocessed (ts : fmap (list wreq)) (un : fmap (list wreq)) : fmap (list wreq) :=
+  match ts with
+  | [] => un
+  | (tn, rs) :: rest => all_unprocessed rest (match rs with [] => un | _ => insert tn rs un end)
+  end.
+
+Lemma batch_tables_under_failure ts : forall c un,
+  c_failure c = Some FInternal -> batch_write_tables lm s c ts un = (c, all_unprocessed ts un, None).
+Proof.
+  induction ts as [|[tn rs] ts IH]; intros c un Hf; cbn [batch_write_tables all_unprocessed]; auto.
+  rewrite (batch_reqs_under_failure rs c tn [] Hf). cbn [app]. now apply IH.
+Qed.
+
+Theorem batch_under_failure_general c reqs :
+  c_failure c = Some FInternal ->
+  batch_write lm s c reqs = (c, ok_obs (PBatchWrite (all_unprocessed reqs [])) []).
+Proof.
+  intros Hf. unfold batch_write. rewrite Hf. cbn [andb].
+  now rewrite (batch_tables_under_failure reqs c [] Hf).
 Qed.
 
 Theorem batch_under_failure_all_unprocessed c tn rs :
-  c_failure c = Some FInternal -> v1_name_ok s tn = true -> forallb wreq_ok rs = true -> rs <> [] ->
-  List.length rs <= 25 ->
+  c_failure c = Some FInternal -> rs <> [] ->
   batch_write lm s c [(tn, rs)] = (c, ok_obs (PBatchWrite [(tn, rs)]) []).
 Proof.
-  intros Hf Hn Hr Hne Hl. unfold batch_write. cbn [flat_map snd]. rewrite app_nil_r, Hr. cbn [negb].
-  assert (batch_limit <? List.length rs = false) as -> by (apply Nat.ltb_ge; exact Hl).
-  rewrite Hf. cbn [batch_write_tables].
-  rewrite (batch_reqs_under_failure rs c tn [] Hf Hn Hr). cbn [app].
+  intros Hf Hne. rewrite (batch_under_failure_general c _ Hf). cbn [all_unprocessed].
   destruct rs; [congruence|]. reflexivity.
 Qed.
 
